@@ -41,6 +41,29 @@ Theorem C11_no_abort : forall fixed s l s', shutdown_label l = true -> step fixe
 Proof. exact shutdown_never_aborts. Qed.
 Print Assumptions C11_no_abort.
 
+(* a request in flight (handler entered, response not yet written): under EVERY step of any thread - Shutdown
+   called, listener closed, context expired, other sessions coming and going - the session stays in flight, and the
+   only step that ends this state is its own handler returning, which writes the response on its connection *)
+Theorem C11_inflight_request_completes : forall s l s' c,
+  reachable true s -> step true s l = Some s' -> sget s c = SInFlight ->
+  (sget s' c = SInFlight /\ answered s' = answered s)
+  \/ (exists c', l = LReqEnd c' /\ c' <> c /\ sget s' c = SInFlight)
+  \/ (l = LReqEnd c /\ sget s' c = SRunning /\ answered s' = (answered s ++ [c])%list).
+Proof. intros s l s' c Hr. apply inflight_completes. apply reachable_inv. exact Hr. Qed.
+Print Assumptions C11_inflight_request_completes.
+
+(* and Shutdown / waiter / context steps never change which responses have been written *)
+Theorem C11_no_abort_answers : forall fixed s l s', shutdown_label l = true -> step fixed s l = Some s' -> answered s' = answered s.
+Proof. exact shutdown_keeps_answers. Qed.
+Print Assumptions C11_no_abort_answers.
+
+(* an in-flight session counts as started: Shutdown does not return nil while a handler is running *)
+Theorem C11_inflight_is_waited_for : forall s c, reachable true s -> sget s c = SInFlight -> s_pc s <> SReturned RNil.
+Proof.
+  intros s c Hr Hc Hn. pose proof (shutdown_waits s Hr Hn c) as H. rewrite Hc in H. discriminate.
+Qed.
+Print Assumptions C11_inflight_is_waited_for.
+
 (* regression witness: on the pinned tree (wg.Add not ordered with Shutdown) this schedule lets a session
    run after Shutdown returned nil; on the fixed tree the same schedule closes the late connection *)
 Theorem C11_refuted_pinned :
